@@ -383,3 +383,77 @@ def replay_far(case, ctx):
                       (proto, j, at, len(got), legit), "far/accepted-after/%s/dist%d" % (proto, dist))
     finally:
         s.finish()
+
+
+wrap_case = st.fixed_dictionaries({"proto": st.sampled_from(net.PROTOS), "dir": st.sampled_from(["c2s", "s2c"]), "seed": st.integers(0, 1 << 20),
+                                   "k": st.sampled_from([8, 16, 24, 32, 32, 40, 48, 56]), "extra": st.integers(0, 2)})
+
+
+@P.sub("replay_wrap", wrap_case, quick=96, thorough=3000, chunk=6)
+def replay_wrap(case, ctx):
+    """long-lived connection simulated by advancing both peers' record counters consistently: the records that carry the counter across
+    2^k arrive intact, and the record sent 2^k records earlier, replayed in the place of the next one, is rejected (k = 8..56)"""
+    proto, d, k = case["proto"], case["dir"], case["k"]
+    shim().freeze_time(pki.T0)
+    fieldname = "client_seq_num" if d == "c2s" else "server_seq_num"
+    state = {"armed": False, "seen": 0, "first": None, "replace_at": None, "hit": 0}
+
+    def hook(rec):
+        if not state["armed"] or rec.dir != d:
+            return [rec.raw]
+        i = state["seen"]; state["seen"] += 1
+        if i == 0:
+            state["first"] = rec.raw
+        if state["replace_at"] is not None and i == state["replace_at"]:
+            state["hit"] = 1
+            return [state["first"]]
+        return [rec.raw]
+    s = net.Session(ctx.variant, proto, _pki(proto), hook=hook, seed=case["seed"], quiet_ms=None)
+    try:
+        rc, rs = s.start()
+        hc, hs = s.handshake(timeout=30.0)
+        if hc[0] == "timeout" or hs[0] == "timeout":
+            ctx.note("inconclusive-timeout"); return
+        ctx.check(hc[1] == 1 and hs[1] == 1, "handshake failed %s %s" % (hc, hs), "live/handshake")
+        snd, rcv = (s.client, s.server) if d == "c2s" else (s.server, s.client)
+        cur = int.from_bytes(snd.field(fieldname), "big")
+        cur_r = int.from_bytes(rcv.field(fieldname), "big")
+        ctx.check(cur == cur_r, "after the handshake the peers disagree on the %s record counter: %d vs %d" % (d, cur, cur_r), "wrap/counters-differ")
+        state["armed"] = True
+        m0 = _bytes("wrap%d/first" % case["seed"], 9)
+        r = snd.do("send", m0)
+        r2 = rcv.do("recv_n", len(m0), [64])
+        if r[0] == "timeout" or r2[0] == "timeout":
+            ctx.note("inconclusive-timeout"); return
+        ctx.check(r[1] == 1 and r2[1] is None and r2[2] == m0, "first record not delivered: %r %r" % (r, r2[1]), "live/send")
+        # both peers now stand at cur + 1; jump to t records before cur + 2^k
+        t = cur + 1 + case["extra"]
+        start = cur + (1 << k) - t
+        if start <= cur + 1:
+            ctx.case(nontrivial=False, classes=["skipped"], ident=case); return
+        for ep in (snd, rcv):
+            ep.set_field(fieldname, start.to_bytes(8, "big"))
+        msgs = [_bytes("wrap%d/%d" % (case["seed"], i), 7) for i in range(t)]
+        for i, m in enumerate(msgs):
+            r = snd.do("send", m)
+            r2 = rcv.do("recv_n", len(m), [64])
+            if r[0] == "timeout" or r2[0] == "timeout":
+                ctx.note("inconclusive-timeout"); return
+            ctx.check(r[1] == 1 and r2[1] is None and r2[2] == m,
+                      "%s: record with sequence number %d (counter started at 2^%d - %d) is not delivered: send %r, recv %r" % (proto, start + i, k, t - cur, r[1:], r2[1]),
+                      "wrap/%s/carry-k%d" % (proto, k))
+        now_s, now_r = int.from_bytes(snd.field(fieldname), "big"), int.from_bytes(rcv.field(fieldname), "big")
+        ctx.check(now_s == now_r == cur + (1 << k), "%s: after %d records from %d the counters are sender %d, receiver %d, expected %d" %
+                  (proto, t, start, now_s, now_r, cur + (1 << k)), "wrap/%s/counter-value-k%d" % (proto, k))
+        # the next record is replaced by the one sent 2^k records ago
+        state["replace_at"] = state["seen"]
+        r = snd.do("send", _bytes("wrap%d/victim" % case["seed"], 7))
+        snd.do("close")
+        r2 = rcv.do("recv", 64, timeout=20.0)
+        if r2[0] == "timeout":
+            ctx.note("inconclusive-timeout"); return
+        ctx.case(nontrivial=bool(state["hit"]), classes=[proto, d, "k=%d" % k], ident=case, sample=case)
+        ctx.check(r2[1] != 1, "%s receiver accepted the record with sequence number %d replayed 2^%d records later (returned %d bytes)" % (proto, cur, k, len(r2[2])),
+                  "wrap/%s/replay-accepted-k%d" % (proto, k))
+    finally:
+        s.finish()
